@@ -47,6 +47,7 @@ func (a *fifoMap[T]) Lock(key T) {
 	m.ilen++
 	a.lock.Unlock()
 
+	verifPoint("map.lock.counted")
 	m.mutex.Lock()
 }
 
@@ -58,5 +59,6 @@ func (a *fifoMap[T]) Unlock(key T) {
 		delete(a.items, key)
 	}
 	a.lock.Unlock()
+	verifPoint("map.unlock.updated")
 	m.mutex.Unlock()
 }
